@@ -2,8 +2,8 @@
    modelled field-list types whose fields are in range (names printed as stored). *)
 From DV Require Import Base.Prelude Model.NameM Model.ZoneTextM.
 From DV Require Import Proofs.NameValid Proofs.NameText Proofs.NameTok Proofs.NameOrder Proofs.NameRel.
-From DV Require Import Proofs.ZoneTextBase Proofs.ZoneTextLex Proofs.ZoneTextRecord Proofs.ZoneTextRoundtrip
-  Proofs.ZoneTextNames.
+From DV Require Import Proofs.ZoneTextBase Proofs.ZoneTextLex Proofs.ZoneTextRead Proofs.ZoneTextRecord Proofs.ZoneTextSweep
+  Proofs.ZoneTextRoundtrip Proofs.ZoneTextNames.
 Open Scope Z_scope.
 Ltac Zify.zify_post_hook ::= Z.to_euclidean_division_equations.
 
@@ -382,3 +382,87 @@ Section RdataOk.
       destruct v; [intros []|intros _ H; exact H].
   Qed.
 End RdataOk.
+
+(* ---------- RRSIG (first field: the covered type, printed as a mnemonic) and the RFC 3597 form
+   of unknown types ---------- *)
+Definition rrsig_tail : list fkind := [KTok; KTok; KTtl; KTok; KTok; KTok; KName; KRest false].
+
+Definition hex_lower (h : list Z) : bool :=
+  forallb (fun c => is_digit c || ((97 <=? c) && (c <=? 102))) h.
+
+Lemma hex_lower_facts h : hex_lower h = true ->
+  forallb is_hex h = true /\ lower_l h = h /\ forallb plain_char h = true.
+Proof.
+  induction h as [|c h IH]; [repeat split; reflexivity|]. unfold hex_lower. cbn [forallb]. intros H.
+  apply andb_true_iff in H as [Hc Hr]. destruct (IH Hr) as (I1 & I2 & I3).
+  assert (Hb : (48 <= c <= 57) \/ (97 <= c <= 102)).
+  { apply orb_true_iff in Hc as [Hc|Hc].
+    - unfold is_digit in Hc. apply andb_true_iff in Hc as [A B]. apply Z.leb_le in A, B. lia.
+    - apply andb_true_iff in Hc as [A B]. apply Z.leb_le in A, B. lia. }
+  split; [|split].
+  - cbn [forallb]. rewrite I1, andb_true_r. unfold is_hex. rewrite Hc. reflexivity.
+  - cbn [lower_l map]. fold (lower_l h). rewrite I2. f_equal. unfold lower.
+    replace ((65 <=? c) && (c <=? 90)) with false; [reflexivity|].
+    symmetry. apply andb_false_iff. destruct Hb; [left; apply Z.leb_gt; lia|right; apply Z.leb_gt; lia].
+  - cbn [forallb]. rewrite I3, andb_true_r. unfold plain_char, is_delim.
+    repeat match goal with |- context [c =? ?k] => replace (c =? k) with false by (symmetry; apply Z.eqb_neq; lia) end.
+    reflexivity.
+Qed.
+
+Section RdataOk2.
+  Variable c : cfg.
+  Variable st : style.
+  Variable zo : name.
+  Hypothesis Hzo : Valid zo /\ AllBytes zo /\ is_absolute zo = true.
+  Hypothesis Hplain : st_origin st = None.
+  Local Notation rel := (c_rel c).
+
+  Theorem rdata_ok_rrsig_proof cov rest :
+    0 <= cov <= 65535 -> rdata_fits rel zo rrsig_tail rest ->
+    rdata_ok c st zo tRRSIG (VInt cov :: rest) (TId (type_to_text cov) :: rd_toks rest).
+  Proof.
+    intros Hc Hfit. destruct (type_ok_all cov Hc) as ((Hty & _ & _) & Hclean).
+    unfold rdata_ok. split; [|split].
+    - unfold rdata_text. rewrite (fvals_text_plain st Hplain). cbn [bind].
+      cbn [rd_toks fval_tok map render_tok]. reflexivity.
+    - cbn [forallb tok_clean]. rewrite Hclean. apply (rd_toks_clean c zo rrsig_tail). exact Hfit.
+    - unfold parse_rdata.
+      change (tbl_by_code type_table tRRSIG) with (Some ([82; 82; 83; 73; 71], KType :: rrsig_tail)).
+      pose proof (parse_fields_fits rel zo Hzo rrsig_tail rest Hfit) as Hp.
+      assert (Hgoal : (do rd0 <- parse_fields (KType :: rrsig_tail) (TId (type_to_text cov) :: rd_toks rest) zo rel zo;
+                       if false then Lib eSyntax else Ok rd0) = Ok (VInt cov :: rest)).
+      { cbn [parse_fields tokval]. rewrite Hty. cbn [bind]. fold rrsig_tail. rewrite Hp. reflexivity. }
+      assert (Hnh : type_to_text cov <> [92; 35]) by (intros E; rewrite E in Hty; discriminate Hty).
+      pose proof (not_generic_intro (type_to_text cov) (rd_toks rest) Hnh) as Hng.
+      revert Hng Hgoal. unfold not_generic_start.
+      destruct (type_to_text cov) as [|c0 v]; [intros _ H; exact H|].
+      destruct c0 as [|p|p]; try (intros _ H; exact H).
+      repeat (destruct p as [p|p|]; try (intros _ H; exact H)).
+      destruct v as [|c1 v]; [intros _ H; exact H|].
+      destruct c1 as [|p|p]; try (intros _ H; exact H).
+      repeat (destruct p as [p|p|]; try (intros _ H; exact H)).
+      destruct v; [intros []|intros _ H; exact H].
+  Qed.
+
+  Theorem rdata_ok_generic_proof ty n h :
+    tbl_by_code type_table ty = None -> 0 < n -> hex_lower h = true -> zlen h = 2 * n ->
+    rdata_ok c st zo ty [VTok [92; 35]; VInt n; VRest [h]] [TId [92; 35]; TId (dec n); TId h].
+  Proof.
+    intros Htbl Hn Hh Hl. destruct (hex_lower_facts h Hh) as (Hhex & Hlow & Hpl).
+    destruct (dec_spec n ltac:(lia)) as (Ha & Hi & Hne). destruct (dec_plain n ltac:(lia)) as [Hdp Hdp'].
+    assert (Hhne : h <> []) by (intro E; subst; cbn in Hl; lia).
+    unfold rdata_ok. split; [|split].
+    - unfold rdata_text. rewrite (fvals_text_plain st Hplain). cbn [bind]. rewrite Htbl.
+      cbn [map render_tok join_sp concat]. rewrite app_nil_r. reflexivity.
+    - cbn [forallb tok_clean]. rewrite (plain_clean _ Hdp).
+      assert (Hpt : plain_tok h = true).
+      { unfold plain_tok. rewrite Hpl, andb_true_r. destruct h; [congruence|reflexivity]. }
+      rewrite (plain_clean _ Hpt). reflexivity.
+    - unfold parse_rdata. rewrite Htbl. unfold parse_generic.
+      rewrite (plain_unescape _ Hdp'). cbn [bind]. rewrite Ha.
+      replace (zlen (dec n) =? 0) with false by (symmetry; apply Z.eqb_neq; unfold zlen; destruct (dec n); [congruence|cbn; lia]).
+      cbn [negb andb all_ids unescape_all]. rewrite (plain_unescape _ Hpl). cbn [bind concat]. rewrite app_nil_r.
+      rewrite Hhex, Hi, Hl, Z.eqb_refl. cbn [andb]. rewrite Hlow.
+      destruct h; [congruence|reflexivity].
+  Qed.
+End RdataOk2.
